@@ -26,6 +26,7 @@ import (
 	"github.com/openkruise/rollouts/pkg/trafficrouting"
 	"github.com/openkruise/rollouts/pkg/util"
 	utilerrors "github.com/openkruise/rollouts/pkg/util/errors"
+	apps "k8s.io/api/apps/v1"
 	corev1 "k8s.io/api/core/v1"
 	"k8s.io/apimachinery/pkg/api/errors"
 	metav1 "k8s.io/apimachinery/pkg/apis/meta/v1"
@@ -630,6 +631,11 @@ func newTrafficRoutingContext(c *RolloutContext) *trafficrouting.TrafficRoutingC
 	var revisionLabelKey string
 	if c.Workload != nil {
 		revisionLabelKey = c.Workload.RevisionLabelKey
+	}
+	if c.Workload == nil || revisionLabelKey == "" {
+		// the workload is gone (or its status is not trustworthy): the stable Service may still be pinned, and
+		// every workload finder pins with this label key
+		revisionLabelKey = apps.DefaultDeploymentUniqueLabelKey
 	}
 	var selectorPatch map[string]string
 	if !c.Rollout.Spec.Strategy.DisableGenerateCanaryService() && c.Rollout.Spec.Strategy.Canary != nil &&
